@@ -350,10 +350,39 @@ def ratPowNat (r : Rat) : Nat → Rat
 /-- `ratio ** exp` for an integer exponent -/
 def ratPow (r : Rat) (e : Int) : Rat := if 0 ≤ e then ratPowNat r e.toNat else ratPowNat (1 / r) (-e).toNat
 
+/-- the increment a unit has in the base unit: `tobase(1.0) - tobase(0.0)` -/
+def baseIncrement (w : UnitRow) : Except ErrKind Rat :=
+  if !w.ok then .error .other else
+  match w.toBase.apply 1 with
+  | .error e => .error e
+  | .ok a =>
+    match w.toBase.apply 0 with
+    | .error e => .error e
+    | .ok b => .ok (a - b)
+
+/-- the unit ratio of `_ConvertMatchingExp` (fix e246554): without an offset (`zero == 0.0`) it is
+`Convert(1.0)`; with an offset it is the quotient of the increments the two units have in the base
+unit, read from `GetInfo(quantity_type, unit).tobase` (a zero denominator is `ZeroDivisionError`) -/
+def unitRatio (r : Registry) (qt fromU toU : Sym) (zero : Rat) : Except ErrKind Rat :=
+  if zero = 0 then convert lg r qt fromU toU 1
+  else
+    match getInfo lg r qt fromU false true with
+    | .error e => .error e
+    | .ok fw =>
+      match getInfo lg r qt toU false true with
+      | .error e => .error e
+      | .ok tw =>
+        match baseIncrement fw with
+        | .error e => .error e
+        | .ok fi =>
+          match baseIncrement tw with
+          | .error e => .error e
+          | .ok ti => if ti = 0 then .error .other else .ok (fi / ti)
+
 /-- `_ConvertMatchingExp(quantity_type, from_unit, to_unit, exp, value, in_derived)`: the plain
 conversion for equal units and for exponent 1 outside a derived quantity; inside a derived quantity
-(or with another exponent) the value is scaled by `(Convert(1.0) - Convert(0.0)) ** exp` — a unit
-with an offset is scaled, never shifted; with exponent 1 and no offset the plain conversion is used -/
+(or with another exponent) the value is scaled by `ratio ** exp` — a unit with an offset is scaled,
+never shifted; with exponent 1 and no offset the plain conversion is used -/
 def convertMatchingExp (r : Registry) (qt fromU toU : Sym) (e : Int) (v : Rat) (inDerived : Bool) :
     Except ErrKind Rat :=
   if fromU = toU ∨ (e = 1 ∧ inDerived = false) then convert lg r qt fromU toU v
@@ -363,9 +392,9 @@ def convertMatchingExp (r : Registry) (qt fromU toU : Sym) (e : Int) (v : Rat) (
     | .ok zero =>
       if e = 1 ∧ zero = 0 then convert lg r qt fromU toU v
       else
-        match convert lg r qt fromU toU 1 with
+        match unitRatio lg r qt fromU toU zero with
         | .error err => .error err
-        | .ok one => if one - zero = 0 ∧ e < 0 then .error .other else .ok (v * ratPow (one - zero) e)
+        | .ok ratio => if ratio = 0 ∧ e < 0 then .error .other else .ok (v * ratPow ratio e)
 
 /-- one operand's pass of `_MatchQuantities`: the first unit seen for a quantity type is the
 reference one; a later entry of the same quantity type takes it and the value is converted.
@@ -440,6 +469,17 @@ inductive Query
   | defaultCategory (u : Sym)
   | quantityType (u : Sym)
   | catInfo (c : Sym)
+  | allUnits                                -- db.GetUnits()            (the "all of them" forms read every
+  | allUnitNames                            -- db.GetUnitNames(None)     quantity type's list: GetInfos(None))
+  | unitNames (qt : Sym)                    -- db.GetUnitNames(qt)
+  | quantityTypes                           -- db.GetQuantityTypes()     (compared as a set: the code sorts it)
+  | checkQuantityType (qt : Sym)            -- db.CheckQuantityType(qt)
+  | categories                              -- list(db.IterCategories())
+  | isValidCategory (c : Sym)               -- db.IsValidCategory(c)
+  | unitName (qt u : Sym)                   -- db.GetUnitName(qt, u)
+  | checkQtUnit (qt u : Sym)                -- db.CheckQuantityTypeUnit(qt, u)
+  | info (qt u : Sym) (fixUnknown : Bool)   -- db.GetInfo(qt, u, fix_unknown=…): (quantity type, unit) of the row
+  | getValue (c u v : Sym) (x : Rat)        -- Scalar(x, u, c).GetValue(v)
   | prod (op : ProdOp) (c1 u1 c2 u2 : Sym) (x y : Rat)   -- Scalar(x, u1, c1) * or / Scalar(y, u2, c2)
   | derived (entries : List (Sym × Sym × Int))          -- ObtainQuantity(OrderedDict(entries))
   | createDerived (entries : List (Sym × Sym × Int))    -- Quantity.CreateDerived(OrderedDict(entries))
@@ -502,6 +542,24 @@ def answer (s : CState) : Query → CState × Except ErrKind Ans
   | .defaultCategory u => (s, exMap .sym (getDefaultCategory lg s.reg u))
   | .quantityType u => (s, .ok (.sym (getQuantityType s.reg u)))
   | .catInfo c => (s, exMap .cat (getCategoryInfo s.reg c))
+  | .allUnits => (s, .ok (.syms (getAllUnits s.reg)))
+  | .allUnitNames => (s, .ok (.syms (s.reg.allRows.map (·.name))))
+  | .unitNames qt =>
+    (s, match tlGet s.reg.types qt with
+        | some l => .ok (.syms (l.map (·.name)))
+        | none => .error .units)
+  | .quantityTypes => (s, .ok (.syms (s.reg.types.map (·.1))))
+  | .checkQuantityType qt => (s, if (tlGet s.reg.types qt).isSome then .ok .unit else .error .units)
+  | .categories => (s, .ok (.syms (s.reg.cats.map (·.name))))
+  | .isValidCategory c => (s, .ok (.bool (catGet s.reg.cats c).isSome))
+  | .unitName qt u => (s, exMap (fun w => .sym w.name) (getInfo lg s.reg qt u false true))
+  | .checkQtUnit qt u => (s, if quantityTypeUnitOk lg s.reg qt u then .ok .unit else .error .units)
+  | .info qt u fu => (s, exMap (fun w => .quantity w.qtype w.sym) (getInfo lg s.reg qt u fu true))
+  | .getValue c u v x =>
+    ((obtain lg s false c u).1,
+      match (obtain lg s false c u).2 with
+      | .error e => .error e
+      | .ok q => exMap .number (convertScalarValue lg s.reg q x v))
   | .prod op c1 u1 c2 u2 x y =>
     match (obtain lg s false c1 u1).2 with
     | .error e => ((obtain lg s false c1 u1).1, .error e)
